@@ -20,8 +20,9 @@
   str/bytes value pasted by the transpiler.
 -/
 import Cel.Lemmas.Str
+import Cel.Lemmas.Lex
 namespace Cel.Props.C07
-open Cel Cel.Str
+open Cel Cel.Str Cel.Lex
 
 /-- "Every CEL string literal form (single, double or triple quoted …, with the escapes …) evaluates to
 exactly the spelled sequence of code points": for every cooked style (4 quote kinds) and EVERY body
@@ -260,5 +261,142 @@ theorem literal_any_spelling (st : Style) (hraw : st.raw = false) (ps : List Pie
     (hq : headOk st.quote (renderAll ps)) :
     celstr (wrapStr st (renderAll ps)) = .ok (ps.map Piece.value) :=
   celstr_eq_spelled st hraw _ _ hq (spelled_renderAll ps _ hv (Nat.le_refl _))
+
+/-! #### the lexer step (round 2): the terminal's regular expression cuts the whole spelled literal -/
+
+/-- the lexer step for "decimal … int … literals": Python's `re`, applying the regular expression lark compiles for
+INT_LIT (`Cel.Lex.intLit`, regenerated from cel.lark — `Cel.Bridge.lex_terminals`) at the start of the text, matches the WHOLE
+spelling, for EVERY digit string with optional sign (so the token handed to `IntType()` is the spelled text, not a prefix). -/
+theorem lex_int_dec (neg : Bool) (ds : Text) (h1 : ds ≠ []) (h2 : ds.all isDigit = true) :
+    lexLen intLit (signText neg ++ ds) = some (signText neg ++ ds).length := by
+  have := run_intLit_dec neg ds [] (fun rest => some ((signText neg ++ ds).length - rest.length)) _ h1 h2 (by simp) rfl
+  simpa [lexLen] using this
+
+/-- … and every hexadecimal spelling (`0x` + hex digits of either letter case) -/
+theorem lex_int_hex (neg : Bool) (ds : Text) (h1 : ds ≠ []) (h2 : ds.all isHex = true) :
+    lexLen intLit (signText neg ++ [48, 120] ++ ds) = some (signText neg ++ [48, 120] ++ ds).length := by
+  have := run_intLit_hex neg ds [] (fun rest => some ((signText neg ++ [48, 120] ++ ds).length - rest.length)) _ h1 h2 (by simp) rfl
+  simpa [lexLen] using this
+
+/-- UINT_LIT = INT_LIT `[uU]`: every decimal spelling with either suffix letter is matched whole -/
+theorem lex_uint_dec (neg : Bool) (ds : Text) (u : Nat) (hu : u = 117 ∨ u = 85) (h1 : ds ≠ []) (h2 : ds.all isDigit = true) :
+    lexLen uintLit (signText neg ++ ds ++ [u]) = some (signText neg ++ ds ++ [u]).length := by
+  unfold lexLen uintLit
+  simp only [seqs, run_seq]
+  apply run_intLit_dec neg ds [u] _ _ h1 h2
+  · intro x hx
+    simp at hx; subst hx
+    rcases hu with rfl | rfl <;> decide
+  · simp [uU_mem u hu]
+
+/-- … and every hexadecimal `u` spelling -/
+theorem lex_uint_hex (neg : Bool) (ds : Text) (u : Nat) (hu : u = 117 ∨ u = 85) (h1 : ds ≠ []) (h2 : ds.all isHex = true) :
+    lexLen uintLit (signText neg ++ [48, 120] ++ ds ++ [u]) = some (signText neg ++ [48, 120] ++ ds ++ [u]).length := by
+  unfold lexLen uintLit
+  simp only [seqs, run_seq]
+  apply run_intLit_hex neg ds [u] _ _ h1 h2
+  · intro x hx
+    simp at hx; subst hx
+    rcases hu with rfl | rfl <;> decide
+  · simp [uU_mem u hu]
+
+/-- the lexer step of "encoding any string … as a literal and evaluating it returns the original": for ALL strings `s` and
+every quote kind, the regular expression of the style's terminal (STRING_LIT for `'…'`/`"…"`, MLSTRING_LIT for the triple-quoted
+forms) matches the whole encoded literal — the lazy body loop `(?:…|.)*?` walks through the encoded body without ever
+backtracking and stops at the closing delimiter, never at an escaped quote inside. With `literal_roundtrip`:
+encode ↦ one token ↦ `celstr` ↦ `s`. -/
+theorem lex_string (st : Style) (s : Text) :
+    lexLen (strTerminal st.quote) (encodeLit st s) = some (encodeLit st s).length := by
+  obtain ⟨q, raw, uR, uB⟩ := st
+  unfold lexLen
+  cases q
+  · have := run_stringLit_sq (encodeBody .sq s) (fun rest => some ((39 :: (encodeBody .sq s ++ [39])).length - rest.length)) _
+      (walk_encodeBody itemSQ itemSQ_ok .sq s) rfl
+    simpa [strTerminal, encodeLit, wrapStr, Style.rPrefix, Quote.text, Quote.triple, Quote.char] using this
+  · have := run_stringLit_dq (encodeBody .dq s) (fun rest => some ((34 :: (encodeBody .dq s ++ [34])).length - rest.length)) _
+      (walk_encodeBody itemDQ itemDQ_ok .dq s) rfl
+    simpa [strTerminal, encodeLit, wrapStr, Style.rPrefix, Quote.text, Quote.triple, Quote.char] using this
+  · have := run_mlstringLit_tsq (encodeBody .tsq s)
+      (fun rest => some ((39 :: 39 :: 39 :: (encodeBody .tsq s ++ [39, 39, 39])).length - rest.length)) _
+      (walk_encodeBody itemTSQ itemTSQ_ok .tsq s) rfl
+    simpa [strTerminal, encodeLit, wrapStr, Style.rPrefix, Quote.text, Quote.triple, Quote.char] using this
+  · have := run_mlstringLit_tdq (encodeBody .tdq s)
+      (fun rest => some ((34 :: 34 :: 34 :: (encodeBody .tdq s ++ [34, 34, 34])).length - rest.length)) _
+      (walk_encodeBody itemTDQ itemTDQ_ok .tdq s) rfl
+    simpa [strTerminal, encodeLit, wrapStr, Style.rPrefix, Quote.text, Quote.triple, Quote.char] using this
+
+/-- the same for ALL byte strings: BYTES_LIT (`[bB]` + MLSTRING_LIT, else `[bB]` + STRING_LIT — the triple-quoted alternative is
+tried first and fails on a short-quoted literal) matches the whole encoded bytes literal. With `bytes_roundtrip`:
+encode ↦ one token ↦ `celbytes` ↦ the octets. -/
+theorem lex_bytes (st : Style) (b : List UInt8) :
+    lexLen bytesLit (encodeBytesLit st (b.map UInt8.toNat)) = some (encodeBytesLit st (b.map UInt8.toNat)).length := by
+  have hb : (b.map UInt8.toNat).all (· < 256) = true := by
+    simp only [List.all_map, List.all_eq_true]
+    intro x _
+    simpa using x.toNat_lt
+  generalize b.map UInt8.toNat = bs at hb ⊢
+  obtain ⟨q, raw, uR, uB⟩ := st
+  have hB : (if uB = true then 66 else 98) = 98 ∨ (if uB = true then 66 else 98) = 66 := by cases uB <;> simp
+  unfold lexLen
+  cases q
+  · have hw := walk_encodeBytesBody itemSQ itemSQ_ok 39 (Or.inr rfl) bs hb
+    have hh := headOk_encodeBytesBody .sq bs rfl
+    have h1 := fun k => run_mlstringLit_short 39 (Or.inr rfl) (encodeBytesBody bs) k hh
+    have h2 := run_stringLit_sq (encodeBytesBody bs)
+      (fun rest => some (((if uB = true then 66 else 98) :: 39 :: (encodeBytesBody bs ++ [39])).length - rest.length)) _ hw rfl
+    have := run_bytesLit _ hB (39 :: (encodeBytesBody bs ++ [39]))
+      (fun rest => some (((if uB = true then 66 else 98) :: 39 :: (encodeBytesBody bs ++ [39])).length - rest.length))
+    rw [h1, orElse_none, h2] at this
+    simpa [encodeBytesLit, wrapBytes, Style.rPrefix, Style.bPrefix, Quote.text, Quote.triple, Quote.char] using this
+  · have hw := walk_encodeBytesBody itemDQ itemDQ_ok 34 (Or.inl rfl) bs hb
+    have hh := headOk_encodeBytesBody .dq bs rfl
+    have h1 := fun k => run_mlstringLit_short 34 (Or.inl rfl) (encodeBytesBody bs) k hh
+    have h2 := run_stringLit_dq (encodeBytesBody bs)
+      (fun rest => some (((if uB = true then 66 else 98) :: 34 :: (encodeBytesBody bs ++ [34])).length - rest.length)) _ hw rfl
+    have := run_bytesLit _ hB (34 :: (encodeBytesBody bs ++ [34]))
+      (fun rest => some (((if uB = true then 66 else 98) :: 34 :: (encodeBytesBody bs ++ [34])).length - rest.length))
+    rw [h1, orElse_none, h2] at this
+    simpa [encodeBytesLit, wrapBytes, Style.rPrefix, Style.bPrefix, Quote.text, Quote.triple, Quote.char] using this
+  · have hw := walk_encodeBytesBody itemTSQ itemTSQ_ok 39 (Or.inr rfl) bs hb
+    have h2 := run_mlstringLit_tsq (encodeBytesBody bs)
+      (fun rest => some (((if uB = true then 66 else 98) :: 39 :: 39 :: 39 :: (encodeBytesBody bs ++ [39, 39, 39])).length - rest.length)) _ hw rfl
+    have := run_bytesLit _ hB (39 :: 39 :: 39 :: (encodeBytesBody bs ++ [39, 39, 39]))
+      (fun rest => some (((if uB = true then 66 else 98) :: 39 :: 39 :: 39 :: (encodeBytesBody bs ++ [39, 39, 39])).length - rest.length))
+    rw [h2, orElse_some] at this
+    simpa [encodeBytesLit, wrapBytes, Style.rPrefix, Style.bPrefix, Quote.text, Quote.triple, Quote.char] using this
+  · have hw := walk_encodeBytesBody itemTDQ itemTDQ_ok 34 (Or.inl rfl) bs hb
+    have h2 := run_mlstringLit_tdq (encodeBytesBody bs)
+      (fun rest => some (((if uB = true then 66 else 98) :: 34 :: 34 :: 34 :: (encodeBytesBody bs ++ [34, 34, 34])).length - rest.length)) _ hw rfl
+    have := run_bytesLit _ hB (34 :: 34 :: 34 :: (encodeBytesBody bs ++ [34, 34, 34]))
+      (fun rest => some (((if uB = true then 66 else 98) :: 34 :: 34 :: 34 :: (encodeBytesBody bs ++ [34, 34, 34])).length - rest.length))
+    rw [h2, orElse_some] at this
+    simpa [encodeBytesLit, wrapBytes, Style.rPrefix, Style.bPrefix, Quote.text, Quote.triple, Quote.char] using this
+
+/-- the whole chain for strings, ALL `s`: the terminal cuts the encoded literal as one token and `celstr` of that token is `s` -/
+theorem literal_roundtrip_lexed (st : Style) (s : Text) :
+    lexLen (strTerminal st.quote) (encodeLit st s) = some (encodeLit st s).length ∧ celstr (encodeLit st s) = .ok s :=
+  ⟨lex_string st s, literal_roundtrip st s⟩
+
+/-- the whole chain for ALL byte strings -/
+theorem bytes_roundtrip_lexed (st : Style) (b : List UInt8) :
+    lexLen bytesLit (encodeBytesLit st (b.map UInt8.toNat)) = some (encodeBytesLit st (b.map UInt8.toNat)).length ∧
+    celbytes (encodeBytesLit st (b.map UInt8.toNat)) = .ok (b.map UInt8.toNat) :=
+  ⟨lex_bytes st b, bytes_roundtrip st b⟩
+
+/-! non-vacuity / what the search order means (each is `re.match` on the real terminal, corresponded by the driver's `lex` op) -/
+
+/-- `'a\'b'` is one token of 6 characters: the escaped quote does not end it -/
+example : lexLen stringLit (ofString "'a\\'b'") = some 6 := by decide
+/-- … but `'a\'` alone IS matched (backtracking: `\` as an ordinary character, then the closing quote) — the quirk behind
+the `spelled body = some s` hypothesis of `celstr_eq_spelled` -/
+example : lexLen stringLit (ofString "'a\\'") = some 4 := by decide
+/-- why the encoder escapes quotes inside triple-quoted literals: `'''a''''` is cut after 7 characters, not 8 -/
+example : lexLen mlstringLit (ofString "'''a''''") = some 7 := by decide
+/-- `\u0041` in a double-quoted literal is consumed by `.` (the grammar's `{4-8}` is not a repetition), still one token -/
+example : lexLen stringLit (ofString "\"\\u0041\"") = some 8 := by decide
+/-- INT_LIT stops where the spelling stops; `0x` needs a digit; FLOAT_LIT takes the signed exponent -/
+example : lexLen intLit (ofString "-0x1Fu") = some 5 ∧ lexLen intLit (ofString "0x") = some 1 ∧
+    lexLen uintLit (ofString "007U") = some 4 ∧ lexLen floatLit (ofString "1e+5") = some 4 ∧
+    lexLen floatLit (ofString "-.5E-3x") = some 6 ∧ lexLen floatLit (ofString "5") = none := by decide
 
 end Cel.Props.C07
